@@ -88,3 +88,32 @@ Inductive step :=
   | IfThen (t : test) (body : list step)
   | ForEach (i : iter) (body : list step)
   | TryExceptFinally (body : list step) (handlers : list (exn * list step)) (final : list step).
+
+(** * Storages and holders *)
+
+(** InMemoryStorage / OnDiskStorage: the period an array is kept under *)
+Inductive key_choice := KEternity | KGiven.
+Definition apply_key (k : key_choice) (p : period) : period :=
+  match k with KEternity => eternity_period | KGiven => p end.
+
+(** storage.delete(period) *)
+Inductive delete_rule :=
+  | DeleteAll                             (* the dictionary is emptied *)
+  | DeleteContained (k : key_choice).     (* entries with [key.contains(entry period)] go *)
+
+(** Holder.get_array: where the answer is read *)
+Inductive get_source := GDefault | GMemory | GDisk | GNothing.
+(** Holder.put_in_cache *)
+Inductive put_outcome := PSkip | PSet.
+(** Holder._set: which storage receives the array *)
+Inductive store_choice := StMemory | StDisk.
+
+(** * Variable.get_formula *)
+Inductive formula_outcome :=
+  | FNone                 (* return None *)
+  | FOldest               (* the formula with the oldest start date *)
+  | FScan.                (* the scan over the start dates *)
+Inductive scan_dir := ScanReversed | ScanForward.
+Inductive scan_cmp := CmpLe | CmpLt | CmpGe | CmpGt.
+(** for start in <dir>(formulas): if start <cmp> instant: return formulas[start]; return None *)
+Inductive scan_rule := ScanFirst (d : scan_dir) (c : scan_cmp).
